@@ -12,7 +12,9 @@ Decides the framing / routing clauses the statement rests on, in both stacks (no
  DIR     direction bit, evaluated over the whole 15-bit protocol-id domain instead of by spelling: original stack —
          client.send(p) = p, client.recv(p) = server.send(p) = p | 0x8000, server.recv(p) = p (`subscribe_client/server`,
          `AgentChannel`), the id an agent enqueues with is the `protocol` it was built with and `mux` writes the id and the
-         payload of one and the same queue entry; P2P stack — `write_message` sends on `channel | mode`, `read_full_msgs`
+         payload of one and the same queue entry; the key a queue is registered under (`Demuxer::subscribe`) and the key an
+         arriving segment is looked up with (`Demuxer::demux`) are evaluated over all 65536 wire ids (private helpers inlined):
+         each is injective — in particular p and p ^ 0x8000 differ — and both are the same function; P2P stack — `write_message` sends on `channel | mode`, `read_full_msgs`
          keys on `raw & 0x7fff`; the constants PROTOCOL_CLIENT/SERVER are 0 / 0x8000 and every channel id is below 0x8000,
          pairwise distinct per table; `AnyMessage::channel` and `AnyMessage::from_payload` are inverse tables.
  BOUND   every payload handed to `enqueue_chunk` / `write_segment` inside the two crates comes out of
@@ -754,6 +756,137 @@ def check_anymessage(res, P):
                               "another protocol" % (v, c, c, sorted(got) or "nothing"), where=fn_loc(ff), rule="DIR")
 
 
+# ---------------------------------------------------------------------------------------------------------- EGRESS-KEY
+
+def _eval_key(P, f, sym, env, depth=0):
+    """Evaluate a 16-bit key expression; pure workspace helpers are inlined (their single return expression)."""
+    k = sym[0]
+    m = 0xffff
+    if k == "const":
+        return int(sym[1]) & m
+    if k in ("ref", "deref", "cast"):
+        return _eval_key(P, f, sym[1], env, depth)
+    if k in ("param", "upvar"):
+        if (k, sym[1]) not in env:
+            raise X.NotEvaluable("free variable %s" % (sym[1:],))
+        return env[(k, sym[1])]
+    if k == "un" and sym[1] == "Not":
+        return (~_eval_key(P, f, sym[2], env, depth)) & m
+    if k == "bin":
+        a = _eval_key(P, f, sym[2], env, depth)
+        b = _eval_key(P, f, sym[3], env, depth)
+        op = sym[1]
+        if op == "BitAnd":
+            return a & b
+        if op == "BitOr":
+            return a | b
+        if op == "BitXor":
+            return a ^ b
+        if op in ("Add", "AddWithOverflow", "AddUnchecked"):
+            return (a + b) & m
+        if op in ("Sub", "SubWithOverflow", "SubUnchecked"):
+            return (a - b) & m
+        if op == "Shl":
+            return (a << b) & m if b < 16 else 0
+        if op == "Shr":
+            return a >> b if b < 16 else 0
+        if op == "Rem" and b:
+            return a % b
+        raise X.NotEvaluable("operator %s" % op)
+    if k == "field" and sym[1][0] == "bin" and str(sym[1][1]).endswith("WithOverflow") and sym[2] in (0, "0"):
+        return _eval_key(P, f, sym[1], env, depth)
+    if k == "call":
+        g = P.fns.get(sym[1])
+        if g is None or depth > 3 or g.kind == "Closure":
+            raise X.NotEvaluable("call to %s" % strip_generics(sym[1]))
+        args = [_eval_key(P, f, a, env, depth) for a in sym[2]]
+        genv = {("param", i + 1): v for i, v in enumerate(args)}
+        ret = X.SymX(g)._slot(0, 40)
+        return _eval_key(P, g, ret, genv, depth + 1)
+    raise X.NotEvaluable("expression %s" % k)
+
+
+def _key_leaves(sym):
+    out = set()
+    for s_ in sym_walk(sym):
+        if s_[0] in ("param", "upvar"):
+            out.add((s_[0], s_[1]))
+    return out
+
+
+def check_egress_keys(res, P, spec):
+    """The key a queue is registered under and the key an arriving segment is looked up with are the full 16-bit wire id
+    (any injective function of it, the same on both sides): the mode bit must keep client and server queues apart."""
+    crate = "pallas_network"
+    bit = spec["mode_bit"]
+    sites = {"register": [], "lookup": []}
+    for f in P.by_crate[crate]:
+        if is_test_code(f):
+            continue
+        for bi, t in f.calls():
+            full = t.get("ffull") or t.get("gfull") or ""
+            name = cname(t)
+            if not re.search(r"Sender<alloc::vec::Vec<u8>>", full) or len(t["args"]) < 2:
+                continue
+            m = re.match(r"^(std::collections::hash::map::HashMap|alloc::collections::btree::map::BTreeMap)::(\w+)$", name)
+            if not m:
+                continue
+            if m.group(2) in ("insert", "entry", "try_insert"):
+                sites["register"].append((f, bi, t))
+            elif m.group(2) in ("get", "get_mut", "remove", "contains_key", "get_key_value", "remove_entry"):
+                sites["lookup"].append((f, bi, t))
+    res.count("egress_key_sites", len(sites["register"]) + len(sites["lookup"]))
+    tables = {}
+    for kind in ("register", "lookup"):
+        if not sites[kind]:
+            res.violation("egress-key:%s:none" % kind, "no %s site of the egress queue map found in %s (fail closed)" % (kind, crate), rule="DIR")
+            continue
+        for f, bi, t in sites[kind]:
+            key = "egress-key:%s:%s" % (kind, f.path)
+            sym = X.SymX(f).operand(t["args"][1])
+            leaves = _key_leaves(sym)
+            if len(leaves) != 1:
+                res.violation(key, "%s: the egress queue key `%s` is not a function of one 16-bit protocol id (fail closed)" % (f.path, sym_str(sym, 60)),
+                              where=where(f, t.get("s")), rule="DIR")
+                continue
+            leaf = next(iter(leaves))
+            try:
+                tab = [_eval_key(P, f, sym, {leaf: v}) for v in range(0x10000)]
+            except X.NotEvaluable as e:
+                res.violation(key, "%s: the egress queue key `%s` cannot be evaluated (%s); fail closed" % (f.path, sym_str(sym, 60), e),
+                              where=where(f, t.get("s")), rule="DIR")
+                continue
+            tables.setdefault(kind, []).append((f, t, tab))
+            if len(set(tab)) == 0x10000:
+                res.ok(key, "DIR", "key is an injective function of the 16-bit wire id")
+            else:
+                p = next((v for v in range(bit) if tab[v] == tab[v ^ bit]), None)
+                if p is not None:
+                    why = "ids 0x%04x and 0x%04x (the same mini-protocol in the two directions) get the same key 0x%04x: the client-side and the " \
+                          "server-side agent of one protocol share a queue, the later subscription replaces the earlier and chunks reach the wrong role" % (
+                              p, p ^ bit, tab[p])
+                else:
+                    seen = {}
+                    a = b = 0
+                    for v, kv in enumerate(tab):
+                        if kv in seen:
+                            a, b = seen[kv], v
+                            break
+                        seen[kv] = v
+                    why = "ids 0x%04x and 0x%04x get the same key: two protocols share a queue" % (a, b)
+                res.violation(key, "%s: the key a queue is %s is `%s`; %s" % (
+                    f.path, "registered under" if kind == "register" else "looked up with", sym_str(sym, 60), why), where=where(f, t.get("s")), rule="DIR")
+    for fr, tr, tabr in tables.get("register", []):
+        for fl, tl, tabl in tables.get("lookup", []):
+            key = "egress-key:same:%s:%s" % (fr.path, fl.path)
+            if tabr == tabl:
+                res.ok(key, "DIR", "a segment with wire id x is looked up under the key a subscription for x registered")
+            else:
+                v = next(v for v in range(0x10000) if tabr[v] != tabl[v])
+                res.violation(key, "a queue subscribed for wire id 0x%04x is registered under key 0x%04x (%s) but a segment with that id is looked up "
+                              "under 0x%04x (%s): it is never delivered" % (v, tabr[v], fr.path, tabl[v], fl.path), where=where(fl, tl.get("s")), rule="DIR")
+
+
 # ---------------------------------------------------------------------------------------------------------- BOUND
 
 CHUNKS = re.compile(r"^core::slice::chunks$|^core::slice::chunks_exact$|^core::slice::rchunks$")
@@ -892,6 +1025,7 @@ def run(tier="quick"):
     check_layout(res, P, spec)
     check_frame(res, P, spec)
     check_dir_network(res, P, spec)
+    check_egress_keys(res, P, spec)
     check_dir_network2(res, P, spec)
     check_consts(res, P, spec)
     check_anymessage(res, P)
